@@ -90,7 +90,7 @@ def ppt' (pI : String → Option Int) (g0 t0 : Int) (hasRoute : Bool) (rg rt : I
   let t1 := if hasRoute then rt else t0
   let t3 := upd pI vT (upd pI hT t1)
   let g3 := upd pI vG (upd pI hG g1)
-  let g4 := if decide (g3 = 0) then 60000000000 else g3
+  let g4 := if decide (g3 ≤ 0) then 60000000000 else g3   -- [c08l9] `<= 0` since fix 'negative global timeout'
   let t4 := if decide (t3 ≥ g4) then 0 else t3
   (g4, t4)
 
